@@ -604,7 +604,11 @@ class ModParser(VParser):
             w, s = self.sign_range()
             name = self.next()[1]
             kind = {"input": "iw", "inout": "io"}.get(d) or ("ow" if t == "wire" else "or")
-            self.declare(name, kind, w, s, None)
+            init = None
+            if self.accept("="):          # `output reg [..] x = reset` (regs_init)
+                init = []
+                self.expr(init)
+            self.declare(name, kind, w, s, init)
             self.accept(",")
         self.expect(";")
         while True:
@@ -830,11 +834,11 @@ def convert_capture(top, ios, name="top", **kw):
     cap = Captured()
     orig = V._generate_module
 
-    def hook(f, ios_, name_, ns, attr_translate):
+    def hook(f, ios_, name_, ns, attr_translate, *args, **kwargs):
         cap.f = f
         cap.ns = ns
         cap.ios = set(ios_)
-        return orig(f, ios_, name_, ns, attr_translate)
+        return orig(f, ios_, name_, ns, attr_translate, *args, **kwargs)
     V._generate_module = hook
     try:
         r = V.convert(top, ios=set(ios), name=name, **kw)
